@@ -219,7 +219,7 @@ def extra_obligations(mods, tier, seed):
     except Exception as ex:
         checks.append(("repeated-sensor-calls-are-separate-reads", False, f"{type(ex).__name__}: {ex}"))
     for name, ok, where in checks:
-        out.append({"name": f"C15/arms/{name}", "status": "discharged" if ok else "sat", "backend": "enum", "where": where,
+        out.append({"name": f"C15/arms/{name}", "status": "discharged" if ok else "sat", "backend": "enum", "bounded": True, "where": where,
                     "time": round(time.time() - t0, 3), "replay": {"source": src, "loop": loop[:600]}, "replay_confirmed": not ok})
     out += declared_pin_obligations()
     return out
